@@ -18,13 +18,17 @@ What is proved here (for all inputs, by induction on the row lists; no bound):
   `finding_inner_conjunct_lost_at_outer_join`, `finding_merge_tuple_null_key`,
   `finding_transitive_edge_from_nullsafe_equality`, each beside its guarded theorem
   (`phys_hash_exclNulls_partial`, `reorder_left_inner_partial`, `phys_merge_inner`,
-  `transitive_edge_partial`).
+  `transitive_edge_partial`); later findings are listed in section 5 (`Keys`) and after it:
+  `finding_inner_conjunct_lost_by_conflict_rule` (model of the builder's conflict detection,
+  `Gms/Model/JoinConflict.lean`; guarded: `applied_once_partial`, `lost_iff_rule_violated`) and
+  `finding_left_join_replaced_by_inner_join` (guarded: `left_replaced_by_inner_partial`).
 -/
 import Gms.Lemmas.Phys
 import Gms.Lemmas.Merge
 import Gms.Lemmas.MergeLeft
 import Gms.Lemmas.PhysKeys
 import Gms.Lemmas.Rel
+import Gms.Lemmas.JoinConflict
 import Gms.Model.PhysRegions
 import Gms.Model.PhysKeys
 import Gms.Generated.C01
@@ -799,6 +803,161 @@ theorem finding_lookup_join_nullsafe_for_all_key_parts :
   decide
 
 end Keys
+
+/-! ### Finding 10: an inner-join conjunct lost through a conflict rule (inner-only chains, ≥ 4 tables)
+
+`Gms/Model/JoinConflict.lean` is the Impl model of `edge.calcTES` / `edge.applicable` on left-deep
+chains of inner joins (unit correspondence with the real functions: the `jcd` cases of the run).
+The builder's `assoc` / `leftAsscom` refuse a move that would "estrange" a relation BEFORE they look
+at their tables, so an inner edge gets conflict rules — which the published algorithm never gives
+to a pair of inner joins (the table entries are `always`: `inner_cross_entries_always`). A table set
+that violates a rule of edge e can still be joined through other edges; e's filter is then put at no
+node of that plan. -/
+
+open Gms.JoinConflict in
+/-- Inner and cross operators: `checkProperty` allows assoc, l-asscom and r-asscom for every pair
+(REGENERATED tables), so on inner-only chains the only source of conflict rules is the estrange
+test in front of it. -/
+theorem inner_cross_entries_always :
+    ∀ t ∈ [Generated.C01.assocTable, Generated.C01.leftAsscomTable, Generated.C01.rightAsscomTable],
+      ∀ a ∈ [Kind.cross, Kind.inner], ∀ b ∈ [Kind.cross, Kind.inner], allowed t a b = true := by
+  decide
+
+open Gms.JoinConflict in
+/-- Guarded statement: in a plan over distinct tables that covers the edge's TES, the conjunct of
+the edge is applied at EXACTLY ONE join node whenever the edge's conflict rules hold at the lowest
+node covering the TES (in particular whenever the edge has no rules). The full statement (for
+every edge and plan) is FALSE: `finding_inner_conjunct_lost_by_conflict_rule`. -/
+theorem applied_once_partial (e : Edge) (t : PTree) (hnd : t.verts.Nodup)
+    (hcov : subset e.tes t.verts = true) (h2 : ∃ a b, a ∈ e.tes ∧ b ∈ e.tes ∧ a ≠ b)
+    (hok : rulesOk e (lowestCover e t).verts = true) : countApplied e t = 1 := by
+  rw [applied_count e t hnd hcov h2, if_pos hok]
+
+open Gms.JoinConflict in
+/-- … and it is applied NOWHERE iff a rule is violated there: the region of the finding is exactly
+"a conflict rule of the conjunct's edge fails at the node where its tables first meet". -/
+theorem lost_iff_rule_violated (e : Edge) (t : PTree) (hnd : t.verts.Nodup)
+    (hcov : subset e.tes t.verts = true) (h2 : ∃ a b, a ∈ e.tes ∧ b ∈ e.tes ∧ a ≠ b) :
+    countApplied e t = 0 ↔ rulesOk e (lowestCover e t).verts = false := by
+  rw [applied_count e t hnd hcov h2]
+  cases rulesOk e (lowestCover e t).verts <;> simp
+
+open Gms.JoinConflict in
+theorem applied_once_of_no_rules (e : Edge) (t : PTree) (hnd : t.verts.Nodup)
+    (hcov : subset e.tes t.verts = true) (h2 : ∃ a b, a ∈ e.tes ∧ b ∈ e.tes ∧ a ≠ b)
+    (hr : e.rules = []) : countApplied e t = 1 :=
+  applied_once_partial e t hnd hcov h2 (rulesOk_nil e hr _)
+
+namespace Conflict
+open Gms.JoinConflict
+
+/-- The corpus witness: `s1 ⋈ s2 ON s2=s1 ⋈ s3 ON s2=s3 ⋈ s4 ON s3=s4 AND s4>s1`; SESs of the conjuncts. -/
+def wOns : List (List VSet) := [[[0, 1]], [[1, 2]], [[2, 3], [0, 3]]]
+/-- The default plan `LookupJoin(InnerJoin(s4, InnerJoin(s3, s1)), s2)`. -/
+def wPlan : PTree := .node (.node (.leaf 3) (.node (.leaf 2) (.leaf 0))) (.leaf 1)
+/-- The plan in syntactic order. -/
+def wPlanFwd : PTree := .node (.node (.node (.leaf 0) (.leaf 1)) (.leaf 2)) (.leaf 3)
+
+/-- The edge of `s4 > s1` carries the rule {s3} → {s2}. -/
+example : (buildEdges wOns).map (·.rules) = [[], [], [], [⟨[2], [1]⟩]] := by decide
+/-- The default plan applies the three equalities once and `s4 > s1` nowhere; the plan in syntactic
+order applies every conjunct once. -/
+example : (buildEdges wOns).map (countApplied · wPlan) = [1, 1, 1, 0] := by decide
+example : (buildEdges wOns).map (countApplied · wPlanFwd) = [1, 1, 1, 1] := by decide
+/-- Chains of up to three tables get no rules (samples; the mechanism needs four tables). -/
+example : ∀ e ∈ buildEdges [[[0, 1], [0, 1]], [[1, 2], [0, 2], [0, 1, 2], [0, 1]]], e.rules = [] := by decide
+example : ∀ e ∈ buildEdges [[], [[0, 2], [1, 2]]], e.rules = [] := by decide
+
+/-- What the default plan computes (the conjunct `p14` is in no filter list; `m13` is the edge
+derived from the equalities) … -/
+def plannedLost {α : Type} (m12 m23 m34 m13 : α → α → Bool) (L1 L2 L3 L4 : List α) : List (α × α × α × α) :=
+  (ij (fun (q : α × α × α) b => m12 q.2.2 b && m23 b q.2.1)
+      (ij (fun d (q : α × α) => m34 q.1 d) L4 (ij (fun c a => m13 a c) L3 L1)) L2).map
+    fun x => (x.1.2.2, x.2, x.1.2.1, x.1.1)
+
+/-- … and the query as written. -/
+def written {α : Type} (m12 m23 m34 p14 : α → α → Bool) (L1 L2 L3 L4 : List α) : List (α × α × α × α) :=
+  (ij (fun (q : (α × α) × α) d => m34 q.2 d && p14 q.1.1 d)
+      (ij (fun (q : α × α) c => m23 q.2 c) (ij m12 L1 L2) L3) L4).map
+    fun x => (x.1.1.1, x.1.1.2, x.1.2, x.2)
+
+end Conflict
+
+open Gms.JoinConflict Conflict in
+/-- The witness: the model of the conflict detection applies the conjunct `s4.c0 > s1.c0` at no node
+of the default plan although the plan covers its tables (so `applied_once_partial` without its guard
+is false), and on t1 = {0}, t0 = {-2, 4, -1, 0} the plan without the conjunct returns (0,0,0,0)
+while the query as written returns nothing. -/
+theorem finding_inner_conjunct_lost_by_conflict_rule :
+    (∃ (e : Edge) (t : PTree), e ∈ buildEdges wOns ∧ t.verts.Nodup ∧ subset e.tes t.verts = true ∧
+        (∃ a b, a ∈ e.tes ∧ b ∈ e.tes ∧ a ≠ b) ∧ countApplied e t = 0) ∧
+    (∃ (L1 L2 L3 L4 : List Int),
+        plannedLost (· == ·) (· == ·) (· == ·) (· == ·) L1 L2 L3 L4
+          ≠ written (· == ·) (· == ·) (· == ·) (fun a d => decide (d > a)) L1 L2 L3 L4) := by
+  refine ⟨⟨⟨3, [0, 3], [0, 3], [⟨[2], [1]⟩]⟩, wPlan, by decide, by decide, by decide,
+    ⟨0, 3, by decide, by decide, by decide⟩, by decide⟩, ⟨[0], [-2, 4, -1, 0], [0], [0], by decide⟩⟩
+
+/-! ### Finding 11: a LEFT JOIN replaced by an inner join on a derived edge
+
+`ensureClosure` derives from the equalities above a LEFT JOIN (`s4 = s2 AND s3 = s4`) the edge
+`s2 = s3` between the LEFT JOIN's two sides, registers it as an INNER edge of the LEFT JOIN's
+operator, and `addPlans` then joins the two sides as an inner join on that edge alone — the LEFT
+JOIN's own ON is in no filter list (the comment in `addPlans`: "transitive closure can accidentally
+replace nonInner op with inner op"). -/
+
+/-- The query as written: `(L ⟕ON R)` filtered by the condition `up` of the operators above. -/
+def writtenLeft {α β : Type} (mON : α → β → Bool) (up : α → Option β → Bool) (L : List α) (R : List β) :
+    List (α × Option β) :=
+  (lop .left mON L R).filter fun p => up p.1 p.2
+
+/-- The plan: the inner join on the derived edge `m'`. -/
+def plannedInner {α β : Type} (m' : α → β → Bool) (L : List α) (R : List β) : List (α × Option β) :=
+  lop .inner m' L R
+
+theorem filter_and' {β : Type} (p q : β → Bool) (R : List β) :
+    R.filter (fun b => p b && q b) = (R.filter p).filter q := by
+  induction R with
+  | nil => rfl
+  | cons b R ih => cases hp : p b <;> cases hq : q b <;> simp [List.filter_cons, hp, hq, ih]
+
+theorem filter_map_pair {α β : Type} (a : α) (up : α → Option β → Bool) (F : List β) :
+    (((F.map some).map fun y => (a, y)).filter fun p => up p.1 p.2)
+      = ((F.filter fun b => up a (some b)).map some).map fun y => (a, y) := by
+  induction F with
+  | nil => rfl
+  | cons b F ih => cases h : up a (some b) <;> simp [List.filter_cons, h] at ih ⊢ <;> exact ih
+
+/-- Guarded statement: the replacement is right when the conditions above reject the NULL-padded
+rows AND the derived edge also enforces the LEFT JOIN's ON. The builder checks neither; the full
+statement is FALSE: `finding_left_join_replaced_by_inner_join`. -/
+theorem left_replaced_by_inner_partial {α β : Type} (mON m' : α → β → Bool) (up : α → Option β → Bool)
+    (hnull : ∀ a, up a none = false) (hon : ∀ a b, (mON a b && up a (some b)) = m' a b)
+    (L : List α) (R : List β) : writtenLeft mON up L R = plannedInner m' L R := by
+  unfold writtenLeft plannedInner lop
+  rw [filter_flatMap']
+  apply flatMap_congr'; intro a _
+  have hm : (fun b => m' a b) = fun b => (mON a b && up a (some b)) := by funext b; rw [hon]
+  show _ = ((Shape.inner.ext (R.filter (m' a))).map fun y => (a, y))
+  rw [show R.filter (m' a) = R.filter (fun b => m' a b) from rfl, hm, filter_and']
+  simp only [Shape.ext]
+  by_cases he : (R.filter (mON a)).isEmpty = true
+  · have hnil : R.filter (mON a) = [] := List.isEmpty_iff.mp he
+    simp [he, hnull, hnil]
+  · simp only [he]
+    exact filter_map_pair a up _
+
+/-- Non-vacuity of the guard, and the witness: `t0 s2 LEFT JOIN t1 s3 ON s2.c0 <=> s3.c0 AND
+s3.c0 > s3.c0 … INNER JOIN t0 s4 ON s4.c0 = s2.c0 AND s3.c0 = s4.c0` on s2 = {-1}, s3 = {-1}: the
+ON is never true, every s2 row is NULL-padded and rejected above; the inner join on the derived
+`s2.c0 = s3.c0` returns (-1,-1). -/
+example : ∀ a b : Int, ((a == b) && (match some b with | some y => a == y | none => false)) = (a == b) := by
+  intro a b; simp
+
+theorem finding_left_join_replaced_by_inner_join :
+    ∃ (L R : List Int) (mON m' : Int → Int → Bool) (up : Int → Option Int → Bool),
+      (∀ a, up a none = false) ∧ writtenLeft mON up L R ≠ plannedInner m' L R :=
+  ⟨[-1], [-1], fun a b => a == b && decide (b > b), fun a b => a == b,
+    fun a y => match y with | some b => a == b | none => false, fun _ => rfl, by decide⟩
 
 /-! ## 6. Regenerated facts -/
 
